@@ -248,7 +248,7 @@ func corruptRecord(raw []byte, kind string, p1, p2 int) ([]byte, bool) {
 		out[p1] = byte(p2)
 		return out, true
 	case "jwhole":
-		bodies := []string{"", "null\n", "[]\n", "{}\n", "{\"stamp\": 5}\n", "{\"dependencies\": []}\n", "{\"stamp\": \"!!!not-base64!!!\"}\n",
+		bodies := []string{"", "\n", "  \n\t", "null\n", "[]\n", "{}\n", "{\"stamp\": 5}\n", "{\"dependencies\": []}\n", "{\"stamp\": \"!!!not-base64!!!\"}\n",
 			"{\"stamp\": \"AAAA\"}\n", "{\"rerun\": \"yes\"}\n", "\x00\x00\x00\x00", "{\"stamp\": \"Ti4=\"}\n", "{\"doc\": {\"a\": 1}}\n", "42\n", "\"str\"\n"}
 		if p1 >= len(bodies) {
 			return nil, false
@@ -329,6 +329,18 @@ func corruptRecord(raw []byte, kind string, p1, p2 int) ([]byte, bool) {
 	return nil, false
 }
 
+// parsesAsRecord: can the first JSON value of b be read as a record (the file format of .dawn/build/{targets,sources}/*)?
+func parsesAsRecord(b []byte) bool {
+	var rec struct {
+		Doc          string            `json:"doc"`
+		Dependencies map[string]string `json:"dependencies"`
+		Stamp        string            `json:"stamp"`
+		Run          string            `json:"run"`
+		Rerun        bool              `json:"rerun"`
+	}
+	return json.NewDecoder(bytes.NewReader(b)).Decode(&rec) == nil
+}
+
 func labelOfRecord(rel string) string {
 	// targets/%2Fa -> //:a ; sources/out%2Fa.txt -> source://out:a.txt
 	parts := strings.SplitN(rel, "/", 2)
@@ -341,7 +353,7 @@ func labelOfRecord(rel string) string {
 	return "//" + pkg + ":" + n
 }
 
-// c15RecCase: id = rec/<fileIndex>/<kind>/<p1>/<p2>  or  idx/<kind>/<p1>/<p2>
+// c15RecCase: id = rec/<fileIndex>/<kind>/<p1>/<p2>  or  irec/<fileIndex>/<kind>/<p1>/<p2>  or  idx/<kind>/<p1>/<p2>
 func c15RecCase(c *core.Ctx, id string) {
 	base, err := c15Base(c.Scratch)
 	if err != nil {
@@ -368,6 +380,8 @@ func c15RecCase(c *core.Ctx, id string) {
 		p2, _ := strconv.Atoi(parts[3])
 		corrupted, ok = corruptRecord(raw, parts[1], p1, p2)
 	} else {
+		// irec/... = the same corruption, met by an index-preferring load (which trusts the records it reads lazily)
+		preferIndex = parts[0] == "irec"
 		fi, _ := strconv.Atoi(parts[1])
 		if fi >= len(files) {
 			return
@@ -415,7 +429,16 @@ func c15RecCase(c *core.Ctx, id string) {
 	viol := func(sym, why string) {
 		c.Violation(id, "", sym, map[string]any{"record": rel, "why": why, "original": string(raw), "corrupted": string(corrupted), "outcome": outcome, "executed": sortedKeys(executed), "error": res.LoadErr + res.RunErr})
 	}
-	if parts[0] != "idx" && (outcome == "nothing-executed" || outcome == "re-executed") {
+	// a record file from which no JSON value of the documented shape (doc/dependencies/stamp/run/rerun) can be read is
+	// corrupted beyond doubt: it must surface as a reported load or build error under either kind of load
+	if parts[0] != "idx" && !parsesAsRecord(corrupted) {
+		c.Count("unparseable_record_cases", 1)
+		if outcome == "nothing-executed" || outcome == "re-executed" {
+			viol("unparseable-record-not-reported", "the record file holds no JSON value of the record's shape, yet neither the load nor the build reported an error")
+		}
+	}
+	// (index targets are never executable, so "must have re-executed" is only meaningful after a full load)
+	if parts[0] == "rec" && (outcome == "nothing-executed" || outcome == "re-executed") {
 		lbl := labelOfRecord(rel)
 		isTarget := strings.HasPrefix(rel, "targets/")
 		same, why := semanticallyEqual(raw, corrupted, isTarget)
@@ -461,11 +484,33 @@ func c15Records(c *core.Ctx) {
 		for n := 0; n < len(raw); n += step {
 			add(fmt.Sprintf("rec/%d/jtrunc/%d/0", fi, n))
 		}
+		// the same record corruptions under an index-preferring load
+		for n := 0; n < len(raw); n += c.N(41, 3) {
+			add(fmt.Sprintf("irec/%d/jtrunc/%d/0", fi, n))
+		}
+		for k := 0; k < c.N(30, 600); k++ {
+			add(fmt.Sprintf("irec/%d/jsub/%d/%d", fi, r.IntN(len(raw)), interesting[r.IntN(len(interesting))]))
+		}
+		for k := 0; k < 16; k++ {
+			add(fmt.Sprintf("irec/%d/jwhole/%d/0", fi, k))
+		}
+		for k := 0; k < 6; k++ {
+			add(fmt.Sprintf("irec/%d/depstamp/%d/%d", fi, k/3, k%3))
+		}
+		if strings.HasPrefix(rel, "targets/") {
+			pk, _ := base64.StdEncoding.DecodeString(recs[rel].Stamp)
+			for k := 0; k < c.N(30, 2000) && len(pk) > 0; k++ {
+				add(fmt.Sprintf("irec/%d/ssub/%d/%d", fi, r.IntN(len(pk)), opcodes[r.IntN(len(opcodes))]))
+			}
+			for k := 0; k <= 10; k++ {
+				add(fmt.Sprintf("irec/%d/ssplice/%d/0", fi, k))
+			}
+		}
 		nsub := c.N(150, 3000)
 		for k := 0; k < nsub; k++ {
 			add(fmt.Sprintf("rec/%d/jsub/%d/%d", fi, r.IntN(len(raw)), interesting[r.IntN(len(interesting))]))
 		}
-		for k := 0; k < 14; k++ {
+		for k := 0; k < 16; k++ {
 			add(fmt.Sprintf("rec/%d/jwhole/%d/0", fi, k))
 		}
 		for k := 0; k < 6; k++ {
@@ -500,7 +545,7 @@ func c15Records(c *core.Ctx) {
 			add(fmt.Sprintf("idx/jsub/%d/%d", pos, b))
 		}
 	}
-	for k := 0; k < 14; k++ {
+	for k := 0; k < 16; k++ {
 		add(fmt.Sprintf("idx/jwhole/%d/0", k))
 	}
 	c.Extra("record_files_corrupted", files)
@@ -521,5 +566,5 @@ func c15Records(c *core.Ctx) {
 			}
 			c.Violation(caseID, "", "corrupted-record-crashes-the-process:"+r.FatalKind(), map[string]any{"stderr": headLinesStr(r.Stderr, 30)})
 		}})
-	c.Sample(map[string]any{"kind": "record corruption case ids", "value": []string{"rec/<record>/jtrunc/<len>", "rec/<record>/jsub/<pos>/<byte>", "rec/<record>/jwhole/<k>", "rec/<record>/ssub/<pos>/<byte> (inside the pickled stamp)", "rec/<record>/strunc/<len>", "rec/<record>/ssplice/<k>", "rec/<record>/depstamp/<k>/<how>", "idx/... (index.json with an index-preferring load)"}})
+	c.Sample(map[string]any{"kind": "record corruption case ids", "value": []string{"rec/<record>/jtrunc/<len>", "rec/<record>/jsub/<pos>/<byte>", "rec/<record>/jwhole/<k>", "rec/<record>/ssub/<pos>/<byte> (inside the pickled stamp)", "rec/<record>/strunc/<len>", "rec/<record>/ssplice/<k>", "rec/<record>/depstamp/<k>/<how>", "irec/... (the same record corruptions met by an index-preferring load)", "idx/... (index.json with an index-preferring load)"}})
 }
